@@ -115,12 +115,45 @@ def _panqec_frame(tb):
     return found
 
 
+class CaseTimeout(BaseException):
+    pass
+
+
+CASE_LIMIT = float(os.environ.get('VERIF_CASE_TIMEOUT', '300'))
+
+
+def _set_case_limit(tier):
+    global CASE_LIMIT
+    if 'VERIF_CASE_TIMEOUT' not in os.environ:
+        CASE_LIMIT = 240.0 if tier == 'quick' else 3600.0
+
+
+def _case_alarm(signum, frame):
+    raise CaseTimeout()
+
+
 def safe_eval(eval_case, case):
     """Run eval_case; an exception escaping from panqec code is a violation
-    ('raises'), an exception with no panqec frame is a harness error."""
+    ('raises'), an exception with no panqec frame is a harness error.  A case
+    that exceeds the per-case time limit is abandoned and counted
+    ('case-timeout'): inconclusive, never a violation."""
+    import signal
+    import threading
+    use_timer = (threading.current_thread() is threading.main_thread()
+                 and mp.current_process().name != 'MainProcess')
+    if use_timer:
+        signal.signal(signal.SIGALRM, _case_alarm)
+        signal.setitimer(signal.ITIMER_REAL, CASE_LIMIT)
     try:
-        with quiet():
-            res = eval_case(case)
+        try:
+            with quiet():
+                res = eval_case(case)
+        finally:
+            if use_timer:
+                signal.setitimer(signal.ITIMER_REAL, 0)
+    except CaseTimeout:
+        return {'fails': [], 'nontrivial': False, 'labels': ['case-timeout'], 'evals': 0,
+                'timeout': True}
     except Exception as exc:  # noqa
         tb = sys.exc_info()[2]
         frame = _panqec_frame(tb)
@@ -596,6 +629,7 @@ def main(argv=None):
         print(f'HARNESS-ERROR property={args.prop} import failed')
         return 2
 
+    _set_case_limit(args.tier)      # inherited by the forked workers
     try:
         ctx = Context(module, args.tier, seed)
     except Exception:
@@ -628,15 +662,29 @@ def main(argv=None):
             print(f'replay ok property={ctx.prop}')
         return 0
 
+    import signal
+
+    class _Timeout(Exception):
+        pass
+
+    def _on_alarm(signum, frame):
+        raise _Timeout()
+    budget = int(os.environ.get('VERIF_TIMEOUT', '2400' if args.tier == 'quick' else '28800'))
+    signal.signal(signal.SIGALRM, _on_alarm)
+    signal.alarm(budget)
     try:
         ctx.run_regressions()
         ctx.report_known()
         module.run(ctx)
+    except _Timeout:
+        # a time budget hit is "inconclusive", never a violation
+        ctx.harness_errors.append(f'time budget of {budget}s exhausted (a decode may hang)')
     except HarnessError as exc:
         ctx.harness_errors.append(str(exc))
     except Exception:
         ctx.harness_errors.append(traceback.format_exc())
     finally:
+        signal.alarm(0)
         ctx.close()
 
     # bucket violations by root cause; keep the smallest case per bucket
@@ -667,6 +715,11 @@ def main(argv=None):
             print(f"  {fails[0]['relation']}: {str(fails[0]['detail'])[:400]}")
             print(f'VIOLATION property={ctx.prop} replay={path}')
         return 1
+    n_to = st.labels.get('case-timeout', 0)
+    if n_to:
+        ctx.harness_errors.append(
+            f'{n_to} case(s) exceeded the per-case time limit of {CASE_LIMIT:.0f}s '
+            f'(inconclusive; a call into panqec may not terminate)')
     if ctx.harness_errors:
         for e in ctx.harness_errors[:3]:
             print(e)
